@@ -15,7 +15,7 @@ CHECKS = {
         MC,
         "explicit-state BFS to closure over the exact internal state of the real objects, reference-model comparison on every transition",
         "Every reachable internal state of PriorityQueue (heap array + positions map, via the guarded _verif_state hook) and of "
-        "ComponentFinder (parent forest) over small item/score/value domains is visited; every enabled operation is executed by "
+        "ComponentFinder (parent forest; also two finders over overlapping values alive at the same time) over small item/score/value domains is visited; every enabled operation is executed by "
         "the real code and all observers are compared with a dict / set-partition model. Closure of the state graph makes the "
         "history length unbounded.",
         "Trusted: the reference models (dict, set partition), the _verif_state hook reporting the true internal state. Domains are "
@@ -30,7 +30,7 @@ CHECKS.update({
         "bounded-exhaustive enumeration of PedMEC instances executed on the real solver, judged by a brute-force reference",
         "All instances of a layered space (single individual, two unrelated individuals, trio, quartet, parents with five children; all read matrices up to "
         "R*C <= 12 over {0,1,absent} in every sorted order; weights, all genotype vectors, phred likelihood triples, recombination "
-        "costs, explicit position lists with uncovered columns, long tables that exercise sqrt checkpointing, columns with 17-19 active reads, a pedigree with five trios) are run through "
+        "costs, explicit position lists with uncovered columns, long tables that exercise sqrt checkpointing, columns with 17-19 active reads, a pedigree with five trios, likelihoods handed over with trusted genotypes) are run through "
         "whatshap.core.PedigreeDPTable; reported cost, returned bipartition + transmission vector and every unflagged allele are "
         "compared with an independent brute force over all bipartitions, transmission paths and allele assignments.",
         "Trusted: native/oracle.cpp and its pure-Python twin (cross-checked at start-up), small value sets for weights/likelihoods/costs. "
@@ -42,7 +42,7 @@ CHECKS.update({
         "bounded-exhaustive enumeration of synthetic worlds (FASTA+VCF+BAM with known haplotypes) run through the real pipeline",
         "Every world of the alphabet (variant type vectors over SNV/MNP/INS/DEL x haplotype patterns x read sets incl. gapped and "
         "paired reads x margins around the re-alignment overhang x tag/only-snvs/reference/sample/chromosome options, depth above the "
-        "coverage cap, clipped alignments, several BAM files with colliding read names, unphased genotypes spelled 1/0) is phased by run_whatshap in-process; every phase set must equal the true haplotypes or their exchange.",
+        "coverage cap, clipped alignments, several BAM files with colliding read names, unphased genotypes spelled 1/0, extended CIGAR with uneven coverage) is phased by run_whatshap in-process; every phase set must equal the true haplotypes or their exchange.",
         "Trusted: the synthesiser (reads are exact copies of the haplotypes, indels placed at the VCF position), the independent text VCF "
         "decoder. Well-separated variants, repeat-free reference.",
         "C02",
@@ -62,79 +62,79 @@ CHECKS.update({
     "C06": (EXPL, "complete grid of read placements (type, context, offsets, CIGAR style) run through ReadSetReader.read with and without reference",
         "Every placement of the alphabet (SNV/MNP/INS/DEL of length 1-3, random / homopolymer / dinucleotide context, haplotype, every start and end offset within 14 bases, "
         "M, =/X, soft/hard clips, unrelated indels, reference skips next to / over the variant, reads outside, mate pairs, second variant at distance 1-30, a second LISTED indel of 1-8 bases at every offset "
-        "around both ends of the re-alignment window, records with a symbolic ALT next to the variants, two-ALT records read with mav=True) is "
+        "around both ends of the re-alignment window, records with a symbolic ALT next to the variants, two-ALT records read with mav=True, an insertion in front of a variant inside a reference skip, the alignments of a site spread over two files) is "
         "written to a BAM and read once per mode; the recorded allele must never be the other allele, must be absent for non-overlapping reads and must be found where the statement says so.",
         "Trusted: synthesiser places indels at the VCF position on a repeat-free reference; 'fully covers' as defined in DESIGN.md C06. One recorded known finding (known_findings.json, "
         "signature c06:wrong-allele:edit-distance-limit): matched only when an independent unit-cost edit-distance computation on the exactly extracted window favours the other allele too.", "C06"),
     "C07": (EXPL, "bounded-exhaustive enumeration of read multisets x caps x preferred subsets on readselection; traced pipeline runs for the per-family cap",
         "Every multiset of <= 5 reads (subsets of >= 2 of <= 5 positions) x cap 1-3 x bridging x every subset marked preferred (R<=4) x quality levels (R<=3): subset, cap and maximality are "
-        "recomputed independently; every multiset of <= 3 long / end-only reads over 200 variant positions (with and without a read over all of them); plus traced `whatshap phase` runs (single sample, trio, trio with an unsequenced parent phased through a VCF phase input; depth above the cap) for the total coverage handed to the solver.",
+        "recomputed independently; every multiset of <= 3 long / end-only reads over 200 and 800 variant positions (with and without a read over all of them); plus traced `whatshap phase` runs (single sample, trio, trio with an unsequenced parent phased through a VCF phase input, --merge-reads; depth above the cap) for the total coverage handed to the solver.",
         "Trusted: the span-coverage recount; the trace hook reporting the reads given to the solver.", "C07"),
     "C08": (EXPL, "bounded-exhaustive enumeration of HMM instances against plain forward-backward / full path enumeration in long double",
         "All instances of the layered space (read matrices with >= 2 entries per read, base qualities, prior triples, single/trio/quartet, recombination costs, long tables for the sqrt "
-        "column storage) through whatshap.core.GenotypeDPTable, compared to 1e-9 with an independent summation over global bipartitions; GL/GT/GQ consistency of `whatshap genotype` VCFs; "
+        "column storage) through whatshap.core.GenotypeDPTable, compared to 1e-9 with an independent summation over global bipartitions; GL/GT/GQ consistency of `whatshap genotype` VCFs (also a second record on a coordinate, and two unrelated samples genotyped jointly vs. alone); "
         "determine_genotype + GenotypeVcfWriter on every distribution of a 1/20 (1/40) grid x thresholds (exact ties, zeros, maxima equal to the threshold).",
         "Trusted: native/oracle.cpp genotype_posterior (two modes cross-checked, Python twin, hand-computed triples from the repository's tests).", "C08"),
     "C11": (EXPL, "bounded-exhaustive enumeration of pairs / triples of phasings against the definitions (brute force for minima)",
         "All pairs of phasing patterns (n<=3 complete incl. unphased/homozygous calls, all-phased one/two-block patterns n=4, one-block n=5,7), explicit relabelling slice, triples for "
-        "--tsv-multiway, 2-3 files x 1-3 chromosomes (every pairwise row, BED per pair and chromosome, multiway per chromosome), ploidy 3-4 one-block pairs, two polyploid blocks of different size, "
+        "--tsv-multiway, 2-3 files x 1-3 chromosomes (every pairwise row, BED per pair and chromosome, multiway per chromosome), three files at a two-ALT record, genotypes over three ALT alleles, polyploid columns over 0/1/2 through the files, ploidy 3-4 one-block pairs, two polyploid blocks of different size, "
         "function-level slice on compare_block (columns over the alleles 0/1 and 0/1/2): every TSV/BED/longest-block output is recomputed from the definitions.",
         "Trusted: the definitions as coded in c11.py (self-tested: run-length decomposition == brute-force minimum of flips+switches).", "C11"),
     "C12": (EXPL, "bounded-exhaustive enumeration of call-kind sequences against an independent count",
-        "All sequences of 13 call kinds (incl. indel and MNP records) up to length 4 (5) x PS/HP x --only-snvs, three interleaved sets over 6-9 variants, two-chromosome files (also interleaved) x --chromosome selections, "
+        "All sequences of 13 call kinds (incl. indel and MNP records) up to length 4 (5) x PS/HP x --only-snvs, three interleaved sets over 6-9 variants, two-chromosome files (also interleaved) x --chromosome selections (also named against the file order), "
         "second sample: TSV counts, identities, per-block size statistics, consistency of the block-length statistics, block list, GTF runs, ALL row and the covered-span bound are recomputed from the scenario.",
         "Trusted: independent counts in c12.py. Multi-ALT and duplicate positions are not generated.", "C12"),
     "C13": (MC, "explicit-state BFS over {unphase, phase PS, phase HP} histories on VCF files, every transition executed by the real command",
-        "From every base file (all sequences of <= 3 records over 15 call kinds incl. haploid, polyploid, partially missing, GT-less, pre-phased; 1-2 samples) BFS to depth 3; "
+        "From every base file (all sequences of <= 3 records over 15 call kinds incl. haploid, polyploid, partially missing, GT-less, pre-phased; 1-2 samples; headers with none, one or two ##phasing lines) BFS to depth 3; "
         "invariants on every unphase transition (no phase left, nothing else changed, idempotent, unphase(phase(x)) == unphase(x)).",
         "Trusted: text-level VCF comparison. A failing phase run is a disabled transition.", "C13"),
     "C14": (EXPL, "bounded-exhaustive enumeration of (reads, list, options) against a reference distribution model",
         "All read-name sequences (<= 3 (4) reads over 3 names incl. repeats, zero-length reads) x all haplotype assignments x list formats x BAM/FASTQ(.gz) x ploidy 2-3 (4) x "
-        "requested-output subsets x --add-untagged / --discard-unknown-reads / --only-largest-block (three layouts of phase sets over two chromosomes), file names .fastq/.fastq.gz/.fq/.fq.gz: every output is compared record by record, plus the histogram column sums.",
-        "Trusted: the dict-based reference model in c14.py. Read names unique within the list.", "C14"),
+        "requested-output subsets x --add-untagged / --discard-unknown-reads / --only-largest-block (three layouts of phase sets over two chromosomes), file names .fastq/.fastq.gz/.fq/.fq.gz, list lines written twice, only the untagged output requested: every output is compared record by record, plus the histogram column sums.",
+        "Trusted: the dict-based reference model in c14.py. A repeated list line repeats the same haplotype.", "C14"),
 })
 
 CHECKS.update({
     "C03": (EXPL, "bounded-exhaustive enumeration of read/variant incidence structures run through the pipeline; components recomputed from the traced solver reads",
         "Every set of <= 3 read kinds (arbitrary subsets of >= 2 of k <= 5 variants, realised with reference skips / mate pairs) x haplotype assignment x tag, a selection-active slice "
-        "(copies + tiny coverage cap), trio slices with members homozygous at chosen variants, two read-disconnected components, and genotypes the reads contradict under --distrust-genotypes (with / without genetic haplotyping): same PS <=> connected by the reads handed to the "
+        "(copies + tiny coverage cap), a variant on the first base of the contig, single samples with --include-homozygous, a sample outside the PED file, trio slices with members homozygous at chosen variants, two read-disconnected components, and genotypes the reads contradict under --distrust-genotypes (with / without genetic haplotyping): same PS <=> connected by the reads handed to the "
         "solver (trace hook, cross-checked with --output-read-list), PS = leftmost variant of the component, master-block merge in pedigree mode.",
         "Trusted: the trace hook's list of reads handed to the solver; independent BFS components.", "C03"),
     "C04": (EXPL, "bounded-exhaustive enumeration of record-kind sequences x decoration profiles x option vectors, record-by-record diff of input and output",
-        "All sequences of <= 3 (4) record kinds (het SNV/indel, hom, missing, partial, multi-ALT, symbolic, duplicate position, no-ALT, pre-phased PS/HP also on records the tool never phases and on samples that are not selected) in a 3-sample, 2-3-chromosome VCF (last contig with only unloadable records) "
+        "All sequences of <= 3 (4) record kinds (het SNV/indel/MNP, hom, missing, partial, multi-ALT, symbolic, duplicate position, no-ALT, pre-phased PS/HP also on records the tool never phases and on samples that are not selected) in a 3-sample, 2-3-chromosome VCF (last contig with only unloadable records) "
         "x 5 decoration profiles (ID/QUAL/FILTER/INFO/FORMAT incl. undeclared predefined keys and an undeclared contig) x sample/chromosome/tag/only-snvs/distrust options; the output is "
         "diffed with an independent text reader.",
         "Trusted: text-level comparison (numbers as numbers). Undeclared *non-predefined* keys are refused by whatshap and not generated.", "C04"),
     "C05": (EXPL, "bounded-exhaustive enumeration of family genotype combinations x read support x options through run_whatshap --ped",
         "All 64 (father, mother, child) genotype combinations per variant over {0/0,0/1,1/1,./.} for k<=2 (4096 for k=2; also with a PED record naming an absent individual first and with an unrelated sample with missing genotypes), a restricted k=3 space with a paternal or maternal recombination (list entries against the traced transmission vector), "
-        "two-child quartets; read support none/child/parents/all; uniform and map-based recombination costs; with and without genetic haplotyping. Judged: paternal|maternal order, "
+        "two-child quartets (also a recombination in one child only, both PED record orders), --tag=HP with genotypes spelled 1/0; read support none/child/parents/all; uniform and map-based recombination costs; with and without genetic haplotyping. Judged: paternal|maternal order, "
         "one fixed reading of the traced transmission bits, conflicts/missing left unphased, homozygous-parent variants phased without reads.",
         "Trusted: scenario construction of Mendelian-consistent haplotypes; the trace hook's transmission vector.", "C05"),
     "C09": (MC, "explicit-state BFS over {phase PS, phase HP, unphase, phase-from-phased-VCF} histories; every transition executed by the real commands",
-        "Per base scenario (k<=5 (6) het variants + hom + multi-ALT record, one/two/interleaved blocks, singleton, reads that cover one variant each, all reads from the other sample, 1-2 samples, unsorted GT, foreign PS/HP pre-phasing) BFS to depth 3; on every "
+        "Per base scenario (k<=5 (6) het variants + hom + multi-ALT record, one/two/interleaved blocks, singleton, reads that cover one variant each, all reads from the other sample, 1-2 samples, unsorted GT, foreign PS/HP pre-phasing, a contradicted genotype under --distrust-genotypes) BFS to depth 3; on every "
         "transition: decoded output == what the writer was given (trace), own reader == text decoder, PS vs HP equal, no stale/old phase statement, phase(x) == phase(unphase(x)), phased VCF "
-        "as only phase input (one file, or split into two files) reproduces its sets.",
+        "as only phase input (one file, split into two files, or written without PS field) reproduces its sets.",
         "Trusted: text decoder of PS/HP (GATK semantics), trace hook. A non-target sample is kept unphased (a PS-phased bystander next to an HP-tagged target is refused by whatshap's reader by design).", "C09"),
     "C10": (EXPL, "bounded-exhaustive enumeration of alignment-kind sequences x VCF designs x options; conservation diff, independent scoring, exchange symmetry by a second run",
         "All sequences of <= 3 (4) alignment kinds (pure / mostly / tied haplotype reads, no-variant reads, mates, supplementary, secondary, duplicate, unmapped placed/unplaced, other "
-        "sample, no RG, stale tags, shared BX near and far, unmapped mate of a tagged read, mate on a contig without variants) x 5 phased-VCF designs x options (tag-supplementary, ignore-linked-read, one region, two adjacent regions, linked-read cutoff, output threads, no reference, ignore-read-groups); "
+        "sample, no RG, stale tags, shared BX near and far, unmapped mate of a tagged read, mate on a contig without variants) x 5 phased-VCF designs x options (tag-supplementary, ignore-linked-read, one region, two adjacent regions, regions named against the input order (contigs chr2 / chr10), linked-read cutoff, output threads, no reference, ignore-read-groups); "
         "ploidy 3-4 slice over every heterozygous genotype matrix of three variants.",
         "Trusted: synthesiser, independent scoring (each variant of a read name counted once; 30 per variant), read-cloud model (same barcode within the cutoff) where the clouds are unambiguous; else conservation and symmetry only.", "C10"),
     "C15": (EXPL, "bounded-exhaustive enumeration of polyploid worlds (haplotype matrices up to row order x read tilings x -B x tag) through run_polyphase",
         "Ploidy 2-4 (5-6 thorough), k<=5 variants, all 0/1 matrices with heterozygous columns up to row order (thinned deterministically above a budget), multi-allelic slice, uneven coverage, "
-        "coverage gaps, pre-phasing, distrust, two samples, further chromosomes on which nothing can be phased, a second record on the coordinate of a phased one: genotype conformance, only heterozygous phased, pass-through, phase sets = disjoint ordered stretches of the read-covered het variants named inside their own stretch.",
+        "coverage gaps, pre-phasing, distrust, two samples, further chromosomes on which nothing can be phased, a second record on the coordinate of a phased one, reads of one haplotype skipping an inner variant: genotype conformance, only heterozygous phased, pass-through, phase sets = disjoint ordered stretches of the read-covered het variants named inside their own stretch.",
         "Trusted: synthesiser; which variants are read-covered is known from the scenario. Matrices beyond the per-shape budget are thinned (stated in the evidence).", "C15"),
     "C16": (MC, "enumeration of schedules: hash seeds until every iteration order of the sample-name set occurred; all job->worker assignments under a controlled pool; thread-count values; repetition",
-        "24 subcommand scenarios (incl. polyphase --use-prephasing with one pre-phased sample among three, haplotag with barcoded reads tied between two phase sets, haplotag --regions over two chromosomes, inputs using undeclared predefined INFO keys) run in fresh interpreters under PYTHONHASHSEED=0,1,2,... until all n! orders of the name set were realised (measured in the child); polyphase under a "
-        "controlled multiprocessing pool for every assignment of the jobs to 2 and 3 workers (up to symmetry) and under the stock Pool; every command twice in one interpreter; haplotag --output-threads 1/2/4. "
+        "28 subcommand scenarios (incl. polyphase on blocks whose genotype has to be forced, stats on an indexed VCF, --use-ped-samples with changed-genotype lists, polyphase --use-prephasing with one pre-phased sample among three, haplotag with barcoded reads tied between two phase sets, haplotag --regions over two chromosomes, inputs using undeclared predefined INFO keys) run in fresh interpreters under PYTHONHASHSEED=0,1,2,... until all n! orders of the name set were realised (measured in the child); polyphase under a "
+        "controlled multiprocessing pool for every assignment of the jobs to 2 and 3 workers (up to symmetry) and under the stock Pool; every command twice in one interpreter; polyphase --threads 1/2/3 each in a fresh interpreter; haplotag --output-threads 1/2/4. "
         "All outputs compared record for record with the first run.",
         "Trusted: abstraction of the hash seed to the order of the name sets; htslib's internal writer threads are not owned by the harness.", "C16"),
     "C17": (MC, "pipeline histories phase -> haplotag -> (partial) unphase -> haplotagphase executed by the real commands for every subset of variants left phased",
-        "Worlds with k<=4 variants (SNV/INS/DEL/MNP mixes), one or two phase sets, all covered / one uncovered / one set untagged; for every subset kept phased in haplotagphase's input the output "
+        "Worlds with k<=4 variants (SNV/INS/DEL/MNP mixes, two-ALT records, uncalled genotypes, a second homozygous sample), one or two phase sets, all covered / one uncovered / one set untagged; for every subset kept phased in haplotagphase's input the output "
         "must carry the original haplotype order and the covering reads' phase set for newly phased variants and leave already phased ones untouched.",
         "Trusted: synthesiser; partial unphase by text edit.", "C17"),
     "C20": (EXPL, "bounded-exhaustive enumeration of (chromosomes x family structures x list options); differential oracle whole run vs. per-chromosome / per-family runs plus trace and VCF diff",
-        "1-3 chromosomes x {single, two unrelated, trio, two trios, trio+single} x recombination / genotype-change placements x tag x chromosome selections: read list == traced reads, "
+        "1-3 chromosomes x {single, two unrelated, trio, two trios, trio+single} x recombination / genotype-change placements (also at indel records, first variant on the first base) x tag x chromosome selections: read list == traced reads, "
         "changed-genotype list == input/output VCF differences (empty without --distrust-genotypes), recombination entries inside one phase set, every list == union of the lists of separate runs.",
         "Trusted: trace hook; the tool's own criterion for a recombination event (only completeness over chromosomes/families and set membership are judged).", "C20"),
 })
